@@ -1,23 +1,15 @@
-(* C28: the witness histories of Model/BTreeWitness.v reach their defect class and are rejected by the
-   ordered-map specification (evaluated by vm_compute). *)
+(* C28: the witness histories of Model/BTreeWitness.v evaluated on the model of the repaired code (vm_compute):
+   the seven former witnesses are accepted by the ordered-map specification, the zero-separator witness
+   reaches class F_ZSEP and is rejected. *)
 From Coq Require Import ZArith List Bool.
 From TV Require Import Lib.MachInt Gen.Varint Model.BTree Model.BTreeSpec Model.BTreeWitness.
 Import ListNotations.
 Open Scope Z_scope.
 
-Lemma fwd_refuted_l : refutes F_FWD w_fwd.
-Proof. vm_compute. split; reflexivity. Qed.
-Lemma seek_refuted_l : refutes F_FWD w_seek.
-Proof. vm_compute. split; reflexivity. Qed.
-Lemma bwd_refuted_l : refutes F_BWD w_bwd.
-Proof. vm_compute. split; reflexivity. Qed.
-Lemma hint_refuted_l : refutes F_HINT w_hint.
-Proof. vm_compute. split; reflexivity. Qed.
-Lemma upd_refuted_l : refutes F_UPD w_upd.
-Proof. vm_compute. split; reflexivity. Qed.
-Lemma leaffull_refuted_l : refutes F_LEAFFULL w_leaffull.
-Proof. vm_compute. split; reflexivity. Qed.
-Lemma sepdup_refuted_l : refutes F_SEPDUP w_sepdup.
-Proof. vm_compute. split; reflexivity. Qed.
-Lemma intfull_refuted_l : refutes F_INTFULL w_intfull.
+Lemma former_witnesses_accepted_l :
+  accepted w_fwd /\ accepted w_seek /\ accepted w_bwd /\ accepted w_hint /\ accepted w_upd /\ accepted w_leaffull
+  /\ accepted w_sepdup /\ accepted w_intfull.
+Proof. vm_compute. repeat split. Qed.
+
+Lemma zsep_refuted_l : refutes F_ZSEP w_zsep.
 Proof. vm_compute. split; reflexivity. Qed.
